@@ -28,7 +28,7 @@ var hibDirName string
 // hibDir returns the private directory for the temporary files of HibernationToDisk (created on first use).
 func hibDir() string {
 	if hibDirName == "" {
-		d, err := os.MkdirTemp("", "c08hib-")
+		d, err := os.MkdirTemp("", "c08hib \u00a0\u00e9\xff%d\t-") // R4-1: white space, non-ASCII and invalid UTF-8 in the hibernation directory
 		if err != nil {
 			panic(err)
 		}
